@@ -241,6 +241,28 @@ def api_vs_oracle(run, ir, zm, m, nper, mask, deviation):
     )
     nll_abs = algebra
     r2, mdl2 = run.prove(key + ":algebra", algebra, [Q.t > 0], timeout_ms=60000, nl=True)
+    # (c) the per-period contributions still sum to the (rescaled) total; the pre-rescale quadratic forms are abstracted per period
+    contribs2 = getattr(c2, "neg_log_likelihood_contributions", None)
+    if r2 == "unsat" and contribs2 is not None:
+        per_q = [(t, i) for t, i in enumerate(c2.all_pe_Fi_pe) if isinstance(i, S.SReal) and not z3.is_rational_value(z3.simplify(i.t))]   # periods without observations give a plain 0
+        qsyms = {t: S.sym(f"Qform_{t}", 1) for t, _ in per_q}
+        subs = [(S.const(i).t, qsyms[t].t) for t, i in per_q]
+        sub2 = lambda x: z3.substitute(S.renorm(S.const(x).t), *subs) if subs else S.const(x).t
+        total = S.const(0)
+        for c_ in contribs2:
+            total = total + c_
+        qsum = S.const(0)
+        for t, _ in per_q:
+            qsum = qsum + qsyms[t]
+        claim_c = z3.substitute(sub2(total) - sub2(c2.neg_log_likelihood), (S.const(q_impl).t, qsum.t))
+        r3, mdl3 = run.prove(key + ":contributions", z3.And(claim_c < Fraction(1, 10 ** 7), claim_c > -Fraction(1, 10 ** 7)), [q.t > 0 for q in qsyms.values()], timeout_ms=60000, nl=True)
+        if r3 == "sat":
+            vals = model_values(mdl, sorted(syms)) if mdl is not None else {}
+            run.counterexample(key, f"kalman:rescale_contributions:{zm.name}", "with rescale_variance=True the per-period likelihood contributions do not sum to the total",
+                               dict(case, kind="api_rescale_contributions", values={n: [v.numerator, v.denominator] for n, v in vals.items()}))
+            return
+        if r3 != "unsat":
+            r2 = r3
     still = [n for n in (str(x) for x in []) ]
     if r == "unsat" and r2 == "unsat":
         if len(run.samples) < 12:
@@ -569,6 +591,11 @@ def replay(case):
     yv = {o: g(db, ynames[o[0]], start + o[1]) for o in obs_all}
     out, info = m.kalman_filter(db, span, deviation=deviation, return_info=True)
     worst, msg = 0.0, "all claims hold"
+    if case["kind"] == "api_rescale_contributions":
+        out2, info2 = m.kalman_filter(db, span, deviation=deviation, return_info=True, rescale_variance=True)
+        tot = float(info2["neg_log_likelihood"])
+        parts = float(np.nansum(np.asarray(info2["neg_log_likelihood_contributions"].get_data(span), dtype=float)))
+        return abs(tot - parts) > 1e-7, f"neg_log_likelihood {tot!r} vs sum of contributions {parts!r}"
     if case["kind"] == "api_rescale":
         out2, info2 = m.kalman_filter(db, span, deviation=deviation, return_info=True, rescale_variance=True)
         nll, my, Si, logdet = B.neg_log_density(obs_all, [yv[o] for o in obs_all])
